@@ -1,5 +1,7 @@
-// ===== prelude/time.rs — std::time stand-ins (trusted; N2). Time is a mathematical integer (ns);
-// `Instant + Duration` is assumed not to overflow (std panics on overflow: unchecked, listed). =====
+// ===== prelude/time.rs — std::time stand-ins (trusted; N2). Time is a mathematical integer (ns) within the representable range
+// [0, instant_max()]. `Instant + Duration` panics in std when the sum is not representable: that is its precondition here (`add_req`),
+// so every use of the operator in obligation-mode code has to establish it (this assumption used to be "does not overflow, listed" -
+// and hid F31); `checked_add` is the total version. =====
 #[verifier::external_body]
 #[derive(Clone, Copy)]
 pub struct Instant { i: u64 }
@@ -7,8 +9,21 @@ pub struct Instant { i: u64 }
 #[derive(Clone, Copy)]
 pub struct Duration { d: u64 }
 
+mod hq_time_axioms {
+    use super::*;
+    pub uninterp spec fn instant_max() -> int;
+    pub uninterp spec fn inst_t(i: Instant) -> int;
+    pub broadcast axiom fn axiom_instant_range(i: Instant)
+        ensures 0 <= #[trigger] inst_t(i) <= instant_max();
+}
+use hq_time_axioms::instant_max;
+//@ broadcast: hq_time_axioms::axiom_instant_range
 impl Instant {
-    pub uninterp spec fn t(&self) -> int;
+    pub open spec fn t(&self) -> int { hq_time_axioms::inst_t(*self) }
+    #[verifier::external_body]
+    fn checked_add(&self, duration: Duration) -> (r: Option<Instant>)
+        ensures r is Some <==> self.t() + duration.d() <= instant_max(), r is Some ==> r->Some_0.t() == self.t() + duration.d()
+    { unimplemented!() }
     #[verifier::external_body]
     fn now() -> (r: Instant) { unimplemented!() }
     #[verifier::external_body]
@@ -36,7 +51,7 @@ impl std::ops::Add<Duration> for Instant {
 }
 impl vstd::std_specs::ops::AddSpecImpl<Duration> for Instant {
     open spec fn obeys_add_spec() -> bool { false }
-    open spec fn add_req(self, rhs: Duration) -> bool { true }
+    open spec fn add_req(self, rhs: Duration) -> bool { self.t() + rhs.d() <= instant_max() }
     uninterp spec fn add_spec(self, rhs: Duration) -> Instant;
 }
 impl std::ops::Sub<Instant> for Instant {
